@@ -8,7 +8,7 @@ mkdir -p .work/bin evidence replays
 cp /repo/go.sum harness/go.sum
 (cd harness && for c in cmd/*/; do n=$(basename $c); [ "$n" = probe ] && continue; go build -tags verif -o ../.work/bin/$n ./cmd/$n; done)
 (cd /repo && go build -o /verif/.work/bin/swagger ./cmd/swagger; git checkout -- go.sum 2>/dev/null || true)
-for t in difftables:GenDiffTables.v textsites:GenTextSites.v sections:GenSections.v taggers:GenTaggers.v; do .work/bin/gstrans ${t%%:*} /repo coq/Gen/${t##*:}; done
+for t in difftables:GenDiffTables.v textsites:GenTextSites.v sections:GenSections.v taggers:GenTaggers.v language:GenLanguage.v; do .work/bin/gstrans ${t%%:*} /repo coq/Gen/${t##*:}; done
 .work/bin/rangesites /repo coq/Gen
 (cd harness && CGO_ENABLED=1 go build -race -tags verif -o ../.work/bin/detcheck-race ./cmd/detcheck) || echo "race build unavailable"
 (cd coq && coq_makefile -f _CoqProject -o Makefile >/dev/null && timeout 3000 make -j16 >/dev/null)
